@@ -548,7 +548,7 @@ def coq_items(mod, modindex):
             dv = _spec_const(data)
             if _spec_const(en) != (1 << w) - 1:
                 raise RtlilError(f"cell {it.name}: meminit EN is not all ones")
-            mem.rows = [(dv >> (w * r)) & ((1 << w) - 1) for r in range(words)]
+            mem.rows = dv          # the whole DATA constant; sliced into rows by the Gallina model (meminit_rows)
             meminit[mid] = True
         elif k == "$memrd_v2":
             _need(it, ("MEMID", "ABITS", "WIDTH", "TRANSPARENCY_MASK", "COLLISION_X_MASK", "ARST_VALUE", "SRST_VALUE",
@@ -631,7 +631,7 @@ def coq_doc(mods):
         wires = "; ".join(
             "Wire {} {} {}".format(w.width, {"none": "WNone", "input": "WIn", "output": "WOut", "inout": "WInout"}[w.kind],
                                    "None" if w.init is None else f"(Some {w.init})") for w in m.wires)
-        mems = "; ".join(f"Mem {mm.width} {mm.size} [" + "; ".join(str(r) for r in mm.rows) + "]" for mm in m.mems)
+        mems = "; ".join(f"MemI {mm.width} {mm.size} {mm.rows}" for mm in m.mems)
         out.append(f"Mod [{wires}] [{mems}]\n   [" + ";\n    ".join(items) + "]")
     return "[" + ";\n  ".join(out) + "]"
 
